@@ -16,15 +16,17 @@ IsEvent(k) == l <= Len(Trace) /\ Ev.k = k /\ Ev.abn = "" /\ l' = l + 1
 EnvK == IF Ev.under = <<>> THEN 0 ELSE Ev.under[1].k
 EnvE == IF Ev.under = <<>> THEN FALSE ELSE Ev.under[1].e
 
+NonEmpty(cs) == SelectSeq(cs, LAMBDA c : Len(c.p) > 0)
 \* the observable outcome equals the machine's
 Matches == /\ Ev.rn = ret'.n /\ Ev.err = ret'.err
-           /\ Ev.under = calls'
+           /\ NonEmpty(Ev.under) = NonEmpty(calls')      \* (a call that offers no bytes may or may not be made)
            /\ (Ev.cur >= 0 => Ev.cur = cur')          \* the cursor itself, through the verif hook
            /\ Confined' /\ CursorNotBeforeBase'
 
 \* offsets are logged relative to the section start (the machine is translation invariant): base = 0
 TraceNew     == IsEvent("New")     /\ Ev.n >= 0 /\ New(0, Ev.n) /\ Ev.under = <<>>
 TraceNewAt   == IsEvent("NewAt")   /\ Ev.room >= 0 /\ NewAtRoom(Ev.room) /\ Ev.under = <<>>
+\* (the scripted writer never fails a call that offers no bytes, see the driver)
 TraceWrite   == IsEvent("Write")   /\ Len(Ev.under) <= 1 /\ Write(Ev.p, EnvK, EnvE) /\ Matches
 TraceWriteAt == IsEvent("WriteAt") /\ Len(Ev.under) <= 1 /\ WriteAt(Ev.p, Ev.off, EnvK, EnvE) /\ Matches
 TraceSeek    == IsEvent("Seek")    /\ Seek(Ev.off, Ev.w) /\ Matches
